@@ -229,7 +229,12 @@ def _try(case, start, binary):
         return None, None, {"err": exn_code(e)}
     if res is None or not hasattr(res, "children"):
         return None, passed, {"err": 13}
-    return res, passed, {"tree": _observe(res, binary), "top": int(res.depth)}
+    obs = {"tree": _observe(res, binary), "top": int(res.depth)}
+    call = case["call"]
+    if (call["fn"] == "prune" and case.get("start") and not binary and call["max_depth"] == 0
+            and call["paths"] not in ("", [])):
+        obs["whole"] = _observe(res.root, binary)     # the whole copy the returned node is attached to
+    return res, passed, obs
 
 
 def run_impl(prop, case):
@@ -340,10 +345,12 @@ def emit(prop, case, obs):
     else:
         p = "(Some (OTree " + _clbls([(d, n, []) for d, n in pr["lines"]]) + "))"
     inv = all(bool(v) for v in obs.get("inv", {}).values())
+    whole = "None" if "whole" not in obs else "(Some " + _clbls(obs["whole"]) + ")"
+
     return (f"HC {cbool(case.get('binary'))} ({cstr(case['sep'])}) "
             f"({_ctree(case['tree'], [0], case['sep'], True)}) "
             f"{clist(str(int(i)) for i in case.get('start', []))} ({_ccall(case['call'])}) ({o}) {top} {p} "
-            f"{cbool(inv)}")
+            f"{whole} {cbool(inv)}")
 
 
 # ---------------------------------------------------------------------------------------------
@@ -931,45 +938,45 @@ def trusted_base(prop):
 
 def partial_clauses(prop):
     return [
-        "nested prune targets (one target an ancestor of another) are outside the property's quantifier: the "
-        "check skips them (F_SKIP) and C14_prune_kept carries the hypothesis `nested _ = false`",
-        "separators: the addressing theorems hold for tree separators of ANY positive length "
-        "(C14_model_satisfies_prop_multi / _inner_multi, C14_prune_kept_multi, C14_missing_path_error_multi, "
-        "C14_missing_subtree_error_multi, C14_subtree_spec_multi) under the guard `strip_ok`: on every path, "
-        "stripping the separator's character set from the right (what the code does) equals stripping whole "
-        "separators.  The guard is proved for every path when the separator is one character "
-        "(C14_paths_ok_one_char: the original theorems are these instances) and for every well-formed path - "
-        "components non-empty and free of separator characters, e.g. names of a tree whose names contain no "
-        "character of the separator, joined by the separator, optional text in front, any number of whole "
-        "trailing separators (C14_paths_ok_wellformed).  Outside the guard the faithful model violates the "
-        "predicate: a name ending in a separator character (C14_multichar_sep_refuted = known finding K3-C14) or "
-        "a malformed path such as 'b>' for sep '->' (C14_multichar_malformed_path_refuted; not generated). "
-        "C14_prune_kept_any_sep, C14_prune_depth, C14_prune_attrs_order, C14_detach_rule hold without any guard; "
-        "the `sep` argument of prune_tree is unrestricted (only str.replace is applied to it)",
+        "nested prune targets are outside the property's quantifier: the check skips them (F_SKIP, ~0.5% of the "
+        "cases).  What the code does there is proved (C14_prune_kept_nested / C14_detach_rule_general: routes to "
+        "all targets, descendants only of the lowest targets) and the union formula of the property text is "
+        "refuted for them (C14_nested_union_refuted, replayed on /repo: prune_tree(r(a(b,c)), ['r/a','r/a/b']) "
+        "drops c)",
+        "separators: the addressing theorems hold for tree separators of any positive length under `paths_ok` "
+        "(character-set rstrip = whole-separator stripping on the path); `paths_ok` is proved for one-character "
+        "separators (all paths), for well-formed paths (C14_paths_ok_wellformed) and for the strings users pass: "
+        "names written with the `sep` argument, optional leading / trailing separators, no character of either "
+        "separator in a name (C14_paths_ok_of_rendered via C14_replace_rendered).  Outside it the faithful model "
+        "violates the predicate: K3-C14 (a name ending in a separator character) and malformed paths such as 'b>' "
+        "for sep '->' (C14_multichar_malformed_path_refuted; not generated)",
         "a prune path that addresses several nodes is answered by SearchError in model and code; the predicate "
         "makes no claim there (documented precondition: path names unique); model and code are still compared",
-        "inner start node: modelled, compared and proved (C14_model_satisfies_prop_inner) under the reading 'the "
-        "tree = the start node's subtree, depths counted from the start node'; what prune_tree leaves *above* the "
-        "returned node (it stays attached to the copied ancestors, node.depth stays absolute) is recorded but not "
-        "constrained",
-        "BinaryNode trees (empty slots preserved): modelled, compared on every run and evaluated against the "
-        "predicate; proved: C14_binary_prune_kept (real nodes of the result = kept real nodes) and "
-        "C14_binary_slots_preserved (no slot moves) for path pruning; the BinaryNode depth cut (two empty slots "
-        "left by `del children`) and the link between `addressed_at true` and the model's search are covered by "
-        "the correspondence run only",
+        "inner start node: predicate and theorems read 'the tree = the start node's subtree, depths counted from "
+        "the start node' (C14_model_satisfies_prop_inner(_multi), C14_prune_kept_inner).  What is above the "
+        "returned node is proved of the model (C14_inner_result_in_whole_copy: the whole copy is `keep` of the "
+        "whole tree, the returned node stays attached) and compared with result.root for path pruning without "
+        "depth limit; with a depth limit only the returned node's subtree and its depth attribute are observed; "
+        "the predicate does not require prune_tree's result to be a root",
+        "BinaryNode trees: proved for calls on the root - addressing (C14_binary_addressing, any start node), "
+        "kept real nodes incl. depth limit (C14_binary_prune_kept_spec), slots (C14_binary_slots_preserved, "
+        "C14_binary_depth_cut_slots), depth cut = structural cut (C14_binary_depth_cut, C14_binary_prune_depth), "
+        "missing path (C14_binary_missing_path_error).  Not proved as one theorem: prop_C14_at true (the "
+        "hole-labelled expected list) and BinaryNode trees called on an inner node / get_subtree on BinaryNode "
+        "trees - these are covered by the correspondence run and the predicate evaluation only.  The theorems "
+        "assume the encoding invariant `holes_leaf` (nothing hangs below an empty slot)",
         "max_depth is a natural number (negative ints behave as 'no limit' in the code and are not generated)",
-        "accepted blind spots of the correspondence: (a) ~0.4% of the cases (nested targets) are skipped; empty "
-        "separators (Unmodelled) are never generated; (b) for a missing path the predicate accepts any exception "
-        "class and for an ambiguous path it accepts anything (the model comparison is exact on the class in both); "
-        "(c) prune_tree on an inner node: the returned node's depth attribute and everything above it are recorded, "
-        "not compared; (d) argument types never generated: generators/sets of paths (the code needs len()), "
-        "non-bool exact, None/negative max_depth, non-str names, names containing a newline on the print path; "
-        "(e) hyield_tree is compared with print_tree as a multiset of names and only for alphanumeric names, "
-        "print_tree only in ansi style; hprint_tree/yield_tree are reached through these two; (f) attribute "
-        "values are compared after canonicalisation (lists as their JSON text, attributes sorted by key: dict "
-        "order of vars() is not observed); (g) the separator of the result is observed as each node's own _sep "
-        "(copied as is) - get_subtree's result takes the separator of the addressed node, not of the tree; (h) the "
-        "functions are called twice on the same input but never on their own result; no hooks/threads",
+        "accepted blind spots of the correspondence: (a) nested targets skipped; empty separators (Unmodelled) "
+        "never generated; (b) for a missing path the predicate accepts any exception class and for an ambiguous "
+        "path it accepts anything (the model comparison is exact on the class in both); (c) argument types never "
+        "generated: generators/sets of paths (the code needs len()), non-bool exact, None/negative max_depth, "
+        "non-str names, names containing a newline on the print path; (d) hyield_tree is compared with print_tree "
+        "as a multiset of names and only for alphanumeric names, print_tree only in ansi style; hprint_tree / "
+        "yield_tree are reached through these two; (e) attribute values are compared after canonicalisation "
+        "(lists as their JSON text, attributes sorted by key); (f) the separator of the result is observed as "
+        "each node's own _sep (copied as is) - get_subtree's result takes the separator of the addressed node, "
+        "not of the tree; (g) the functions are called twice on the same input but never on their own result; no "
+        "hooks/threads",
     ]
 
 
